@@ -3,6 +3,8 @@ NEXT Next
 CHECK_DEADLOCK FALSE
 INVARIANT UniqueAndRight
 INVARIANT RootDigits
+INVARIANT RoutinesRight
+INVARIANT StickyRight
 INVARIANT InvOK
 INVARIANT Emit
 CONSTANTS
